@@ -1,12 +1,15 @@
 import MirVerif.Gen.C14_TypeSize
 import MirVerif.Props.C14.Load
 import MirVerif.Props.C14.Link
+import MirVerif.Props.C14.Reload
 /-!
 # C14 — loaded data items form contiguous, correctly initialised sections
 
 * `Props/C14/Load.lean`: placements (`contiguous`, `maximal`, `in_bounds`, `sizes_agree`, `image_*`)
   after `MIR_load_module`;
 * `Props/C14/Link.lean`: `ref`/`expr` slots after `MIR_link`, data/bss unchanged by it;
+* `Props/C14/Reload.lean`: a second `MIR_load_module` (+ link) of a loaded module re-initialises every item
+  (bss to zero) from any memory state;
 * here: the bridge between the table extracted from the current `mir.c` and the sizes the model uses.
 -/
 
